@@ -44,8 +44,9 @@ def abs_value(v, memo=None, depth=0):
         return ["builtins.float", v.hex()]
     if t is complex:
         return ["builtins.complex", v.real.hex(), v.imag.hex()]
-    if t is bytes:
-        return ["builtins.bytes", v.hex()]
+    if isinstance(v, bytes):
+        # bytes and its subclasses (numpy.bytes_ too): class and content
+        return [tname(t), bytes(v).hex()]
     if isinstance(v, np.generic):
         return [tname(t), v.dtype.str, _raw_bytes(v).hex()]
     if isinstance(v, type):
@@ -94,8 +95,8 @@ def abs_value(v, memo=None, depth=0):
         ss = getattr(v.bit_generator, "seed_seq", None)
         ss_state = abs_value(ss.state, memo, depth + 1) if GENERATOR_SEED_SEQ and ss is not None and hasattr(ss, "state") else None
         return ["obj", me, tname(t), ["rng", type(v.bit_generator).__name__, abs_value(v.bit_generator.state, memo, depth + 1), ss_state]]
-    if t is bytearray:
-        return ["obj", me, "builtins.bytearray", bytes(v).hex()]
+    if isinstance(v, bytearray):
+        return ["obj", me, tname(t), bytes(v).hex()]
     if isinstance(v, (list, tuple, collections.deque)):
         payload = [abs_value(x, memo, depth + 1) for x in v]
         extra = abs_obj_state(v, memo, depth) if t not in (list, tuple) else None
